@@ -76,6 +76,11 @@ def run_case(ctx, kind_, idx):
                 use_linear = td["family"] == "npscalar" and not via_weaver and bool(rng.integers(0, 2))
                 if via_weaver:
                     wv = Weaver(x.copy(), y.copy())
+                    if rng.integers(0, 2):
+                        info["history"] = W.random_history(rng, wv, 1, 3, allow=W.DOMAIN_OPS, max_len=120)
+                        x, y = (np.array(a, dtype=float).copy() for a in wv.get())
+                        if normalized and len(x) < 2:
+                            return
                     wv.trend(f, normalized=normalized)
                     gx, gy = wv.get()
                 elif use_linear:
@@ -129,7 +134,7 @@ def run_case(ctx, kind_, idx):
                 wv = Weaver(x.copy(), y.copy())
                 sx = float(rng.normal(0, 10)) if rng.integers(0, 2) else int(rng.integers(-5, 6))
                 sy = float(rng.normal(0, 10))
-                cx = float(rng.choice([2.0, 0.5, 60.0, float(rng.lognormal(0, 1))]))
+                cx = float(rng.choice([2.0, 0.5, 60.0, -1.0, -2.5, float(rng.lognormal(0, 1))]))     # any non-zero scale
                 cy = float(rng.choice([2.0, -1.5, 0.1, float(rng.normal(0, 3)) or 1.0]))
                 order = list(rng.permutation(4))
                 ex, ey = x.copy(), y.copy()
@@ -161,6 +166,12 @@ def run_case(ctx, kind_, idx):
                 info.update({"min_val": lo, "max_val": hi, "target": target})
                 if via_weaver:
                     wv = Weaver(x.copy() if target == "y" else a.copy(), a.copy() if target == "y" else y.copy())
+                    if rng.integers(0, 2):
+                        # a non-zero (possibly negative) scale first: normalise must still be the INCREASING affine map
+                        c = float(rng.choice([-2.0, -0.5, 3.0, -1.0]))
+                        getattr(wv, "scale_" + target)(c)
+                        a = a * c
+                        info["scaled_first"] = c
                     getattr(wv, "normalize_" + target)(lo, hi)
                     g = wv.get()[0 if target == "x" else 1]
                 else:
